@@ -1,9 +1,10 @@
 import GoatSpec.Proofs.Walk
 /-! # C03 — every changed executable statement is guarded by a tracking point.
 
-Proved here for **line granularity** and for the header rule's forced positions, for every
-abstract file / event list (induction over the statement tree and over the event list). The
-scope / patch / func clauses and the statement positions the walk does not enter (recorded
+Proved here for **line and func granularity**, for the first event of every scope at **scope
+granularity**, and for the header rule's forced positions, for every abstract file / event list
+(induction over the statement tree and over the event list). The patch clause, the dominance
+reading of the scope clause and the statement positions the walk does not enter (recorded
 classes D-C03-1, D-C03-3, D-C03-45) are decided by the `judge:marks` predicate
 (`MarkSpec.c03Reasons`) on every implementation answer of the correspondence streams and are
 listed as known findings where the unchanged tree violates them; the theorems below carry the
@@ -66,6 +67,173 @@ theorem events_marked_line (env : Env) (hg : env.gran = .line) (evs : List Ev) :
       simp only [stepEv] at h1
       exact s2.2.1 r (force_line env hg st b' l r hs hf h1)
     · exact ih b' st' s1.1 h2 l r hrest hs hf
+
+/-- at func granularity, an event inside function scope `idx = (s, e)` leaves the first
+    non-comment line after the function's opening brace marked -/
+theorem force_func (env : Env) (hg : env.gran = .func) (st st' : MState) (l r s e : Nat)
+    (hne : searchScopes env.funcs l ≠ 0) (hfn : env.funcs[searchScopes env.funcs l]? = some (s, e))
+    (hs : skipComments env (env.comments.size + 1) (s + 1) = .ok r) (hf : searchScopes env.funcs r ≠ 0)
+    (h : forceMark env st l = .ok st') : r ∈ st'.multi := by
+  unfold forceMark at h
+  rw [hg] at h
+  simp only at h
+  split at h
+  · next h0 => simp at h0; exact absurd h0 hne
+  · rw [hfn] at h
+    exact markInsert_mem_skip env st st' (s + 1) r hs hf h
+
+/-- **func granularity, fold level.** For every event list: if the fold terminates normally,
+    then for every changed `check l` event and every `force l` event whose line lies in the
+    function scope `(s, e)`, the first non-comment line after `s` (the line of the function's
+    opening brace) is a tracking position whenever it lies inside a function. -/
+theorem events_marked_func (env : Env) (hg : env.gran = .func) (evs : List Ev) :
+    ∀ (st st' : MState), Inv env st → evs.foldlM (stepEv env) st = .ok st' →
+    ∀ l r s e, ((Ev.check l ∈ evs ∧ env.isChanged l = .ok true) ∨ Ev.force l ∈ evs) →
+      searchScopes env.funcs l ≠ 0 → env.funcs[searchScopes env.funcs l]? = some (s, e) →
+      skipComments env (env.comments.size + 1) (s + 1) = .ok r → searchScopes env.funcs r ≠ 0 →
+      r ∈ st'.multi := by
+  induction evs with
+  | nil => intro st st' _ _ l r s e h; rcases h with ⟨h, _⟩ | h <;> cases h
+  | cons ev rest ih =>
+    intro st st' hinv h l r s e hev hne hfn hs hf
+    obtain ⟨b', h1, h2⟩ := (foldlM_ok_cons _ _ _ _ _).mp h
+    have s1 := stepEv_spec env st b' ev hinv h1
+    have s2 := runFrom_spec env rest b' st' s1.1 h2
+    have hhead : (ev = .check l ∧ env.isChanged l = .ok true) ∨ ev = .force l ∨
+        ((Ev.check l ∈ rest ∧ env.isChanged l = .ok true) ∨ Ev.force l ∈ rest) := by
+      rcases hev with ⟨hm, hc⟩ | hm
+      · rcases List.mem_cons.mp hm with e | e
+        · exact Or.inl ⟨e.symm, hc⟩
+        · exact Or.inr (Or.inr (Or.inl ⟨e, hc⟩))
+      · rcases List.mem_cons.mp hm with e | e
+        · exact Or.inr (Or.inl e.symm)
+        · exact Or.inr (Or.inr (Or.inr e))
+    rcases hhead with ⟨e', hc⟩ | e' | hrest
+    · subst e'
+      simp only [stepEv, hc] at h1
+      exact s2.2.1 r (force_func env hg st b' l r s e hne hfn hs hf h1)
+    · subst e'
+      simp only [stepEv] at h1
+      exact s2.2.1 r (force_func env hg st b' l r s e hne hfn hs hf h1)
+    · exact ih b' st' s1.1 h2 l r s e hrest hne hfn hs hf
+
+/-! ## scope granularity: every scope that holds a changed event is visited, and the first
+    event that visits a scope leaves its line marked -/
+
+/-- what `markInsert` guarantees about its own line -/
+theorem markInsert_own (env : Env) (st st' : MState) (line : Nat) (h : markInsert env st line = .ok st') :
+    ∃ r, skipComments env (env.comments.size + 1) line = .ok r ∧ (r ∈ st'.multi ∨ searchScopes env.funcs r = 0)
+      ∧ st'.visitedScopes = st.visitedScopes ∧ (∀ x ∈ st.multi, x ∈ st'.multi) := by
+  unfold markInsert at h
+  split at h
+  · cases h
+  · next r hr =>
+    refine ⟨r, hr, ?_⟩
+    split at h
+    · next h0 => cases h; simp at h0; exact ⟨Or.inr h0, rfl, fun _ hx => hx⟩
+    · split at h
+      · next hc => cases h; exact ⟨Or.inl (by simpa [List.contains_iff_mem] using hc), rfl, fun _ hx => hx⟩
+      · cases h; exact ⟨Or.inl (by simp), rfl, fun x hx => List.mem_append.mpr (Or.inl hx)⟩
+
+/-- every visited scope key has a witness: an event line of that scope whose comment-adjusted
+    line is a tracking position (or lies outside every function, where nothing is inserted) -/
+def ScopeWit (env : Env) (st : MState) : Prop :=
+  ∀ key ∈ st.visitedScopes, ∃ l0 t0 r0, searchTrees env.trees l0 = some t0 ∧ t0.search l0 = key ∧
+    skipComments env (env.comments.size + 1) l0 = .ok r0 ∧ (r0 ∈ st.multi ∨ searchScopes env.funcs r0 = 0)
+
+theorem ScopeWit.mono {env : Env} {st st' : MState} (hw : ScopeWit env st)
+    (hv : st'.visitedScopes = st.visitedScopes) (hm : ∀ x ∈ st.multi, x ∈ st'.multi) : ScopeWit env st' := by
+  intro key hk
+  rw [hv] at hk
+  obtain ⟨l0, t0, r0, h1, h2, h3, h4⟩ := hw key hk
+  exact ⟨l0, t0, r0, h1, h2, h3, h4.imp (hm r0) id⟩
+
+theorem forceMark_scope (env : Env) (hg : env.gran = .scope) (st st' : MState) (l : Nat)
+    (hw : ScopeWit env st) (h : forceMark env st l = .ok st') :
+    ScopeWit env st' ∧ (∀ k ∈ st.visitedScopes, k ∈ st'.visitedScopes)
+      ∧ (∀ t, searchTrees env.trees l = some t → t.search l ∈ st'.visitedScopes) := by
+  unfold forceMark at h
+  rw [hg] at h
+  simp only at h
+  split at h
+  · next hn => cases h; exact ⟨hw, fun _ hk => hk, fun t ht => by rw [hn] at ht; cases ht⟩
+  · next t ht =>
+    split at h
+    · next hv =>
+      cases h
+      refine ⟨hw, fun _ hk => hk, fun t' ht' => ?_⟩
+      rw [ht] at ht'; cases ht'
+      simpa [List.contains_iff_mem] using hv
+    · obtain ⟨r, hr, hin, hvs, hmono⟩ := markInsert_own env _ st' l h
+      simp only at hvs hmono
+      refine ⟨?_, ?_, ?_⟩
+      · intro key hk
+        rw [hvs] at hk
+        rcases List.mem_cons.mp hk with e | e
+        · subst e; exact ⟨l, t, r, ht, rfl, hr, hin⟩
+        · obtain ⟨l0, t0, r0, h1, h2, h3, h4⟩ := hw key e
+          exact ⟨l0, t0, r0, h1, h2, h3, h4.imp (hmono r0) id⟩
+      · intro k hk; rw [hvs]; exact List.mem_cons_of_mem _ hk
+      · intro t' ht'; rw [ht] at ht'; cases ht'; rw [hvs]; exact List.mem_cons_self
+
+theorem stepEv_scope (env : Env) (hg : env.gran = .scope) (st st' : MState) (ev : Ev)
+    (hw : ScopeWit env st) (h : stepEv env st ev = .ok st') :
+    ScopeWit env st' ∧ (∀ k ∈ st.visitedScopes, k ∈ st'.visitedScopes) := by
+  cases ev with
+  | check l =>
+    simp only [stepEv] at h
+    split at h
+    · cases h
+    · cases h; exact ⟨hw, fun _ hk => hk⟩
+    · have := forceMark_scope env hg st st' l hw h; exact ⟨this.1, this.2.1⟩
+  | force l => have := forceMark_scope env hg st st' l hw h; exact ⟨this.1, this.2.1⟩
+  | single l c =>
+    simp only [stepEv] at h
+    split at h
+    · cases h
+    · cases h; exact ⟨hw, fun _ hk => hk⟩
+    · cases h; exact ⟨hw.mono rfl (fun _ hx => hx), fun _ hk => hk⟩
+
+/-- **scope granularity, fold level.** For every event list: if the fold terminates normally,
+    every innermost track scope (block) that holds a changed `check` event or a `force` event is
+    visited, and every visited scope has an event line of that very scope whose comment-adjusted
+    line is a tracking position — the tracker puts (at least) one call into each block that
+    holds a changed statement the walk reaches. That this call precedes the statement is the
+    order of the statement walk, judged per input (`MarkSpec.c03Reasons`). -/
+theorem events_scope (env : Env) (hg : env.gran = .scope) (evs : List Ev) :
+    ∀ (st st' : MState), ScopeWit env st → evs.foldlM (stepEv env) st = .ok st' →
+      ScopeWit env st' ∧ (∀ k ∈ st.visitedScopes, k ∈ st'.visitedScopes) ∧
+      ∀ l t, ((Ev.check l ∈ evs ∧ env.isChanged l = .ok true) ∨ Ev.force l ∈ evs) →
+        searchTrees env.trees l = some t → t.search l ∈ st'.visitedScopes := by
+  induction evs with
+  | nil =>
+    intro st st' hw h
+    simp [pure, Except.pure] at h; cases h
+    exact ⟨hw, fun _ hk => hk, fun l t h => by rcases h with ⟨h, _⟩ | h <;> cases h⟩
+  | cons ev rest ih =>
+    intro st st' hw h
+    obtain ⟨b', h1, h2⟩ := (foldlM_ok_cons _ _ _ _ _).mp h
+    have s1 := stepEv_scope env hg st b' ev hw h1
+    have s2 := ih b' st' s1.1 h2
+    refine ⟨s2.1, fun k hk => s2.2.1 k (s1.2 k hk), ?_⟩
+    intro l t hev ht
+    have hhead : (ev = .check l ∧ env.isChanged l = .ok true) ∨ ev = .force l ∨
+        ((Ev.check l ∈ rest ∧ env.isChanged l = .ok true) ∨ Ev.force l ∈ rest) := by
+      rcases hev with ⟨hm, hc⟩ | hm
+      · rcases List.mem_cons.mp hm with e | e
+        · exact Or.inl ⟨e.symm, hc⟩
+        · exact Or.inr (Or.inr (Or.inl ⟨e, hc⟩))
+      · rcases List.mem_cons.mp hm with e | e
+        · exact Or.inr (Or.inl e.symm)
+        · exact Or.inr (Or.inr (Or.inr e))
+    rcases hhead with ⟨e, hc⟩ | e | hrest
+    · subst e
+      simp only [stepEv, hc] at h1
+      exact s2.2.1 _ ((forceMark_scope env hg st b' l hw h1).2.2 t ht)
+    · subst e
+      simp only [stepEv] at h1
+      exact s2.2.1 _ ((forceMark_scope env hg st b' l hw h1).2.2 t ht)
+    · exact s2.2.2 l t hrest ht
 
 theorem mem_sortNat (x : Nat) (l : List Nat) : x ∈ sortNat l ↔ x ∈ l := by
   unfold sortNat
@@ -142,6 +310,79 @@ theorem line_guard_partial (f : File) (ranges : List (Nat × Nat)) (m : Marks)
     exact events_marked_line env hg _ {} st (Inv.init env) hst l l (Or.inl ⟨hev, hch⟩)
       (skipComments_id env _ l hnc) hin
 
+/-- **C03, func granularity (partial: statements in the positions the walk enters).**
+    For every abstract file and changed-line set on which the tracker terminates normally: a
+    marking statement of a declared function's body that the statement walk reaches and whose
+    first line `l` is changed has a tracking block at the start of the function scope `(s, e)`
+    that contains `l` (the scope `searchScopes` finds: the innermost declared function or function
+    literal) — on the first non-comment line `r` after the line `s` of its opening brace:
+    `r ∈ (marks f .func ranges).multi`. -/
+theorem func_guard_partial (f : File) (ranges : List (Nat × Nat)) (m : Marks)
+    (h : marks f .func ranges = .ok m)
+    (lb rb : Nat) (p : Nat × Nat) (stmts : List Stmt)
+    (hd : Decl.funcDecl (some (lb, rb, some p, stmts)) ∈ f.decls)
+    (l : Nat) (hw : WalkedL l stmts)
+    (env : Env) (henv : mkEnv f .func ranges = .ok env)
+    (hch : env.isChanged l = .ok true)
+    (s e r : Nat) (hin : searchScopes env.funcs l ≠ 0)
+    (hfn : env.funcs[searchScopes env.funcs l]? = some (s, e))
+    (hs : skipComments env (env.comments.size + 1) (s + 1) = .ok r)
+    (hrin : searchScopes env.funcs r ≠ 0) : r ∈ m.multi := by
+  unfold marks at h
+  rw [henv] at h
+  simp only at h
+  split at h
+  · cases h
+  · next st hst =>
+    cases h
+    rw [mem_sortNat]
+    have hg : env.gran = .func := mkEnv_gran f .func ranges env henv
+    have hev : Ev.check l ∈ fileEvents (fun l => env.changed.getD l false) f := by
+      apply List.mem_flatMap.mpr
+      refine ⟨_, hd, ?_⟩
+      simp only [declEvents]
+      apply List.mem_append.mpr; left
+      apply List.mem_append.mpr; right
+      exact walkedL_ev hw
+    exact events_marked_func env hg _ {} st (Inv.init env) hst l r s e (Or.inl ⟨hev, hch⟩) hin hfn hs hrin
+
+/-- **C03, scope granularity (partial: one call per block that holds a reached changed statement).**
+    For every abstract file and changed-line set on which the tracker terminates normally: for a
+    marking statement of a declared function's body that the statement walk reaches, whose first
+    line `l` is changed and lies in the innermost track scope (block) `key`, the tracker has put a
+    tracking block before the comment-adjusted line `r0` of some event line `l0` of that same
+    block (or `r0` lies outside every function). Which event comes first — hence that the call
+    precedes the statement — is the order of the walk and is judged per input. -/
+theorem scope_guard_partial (f : File) (ranges : List (Nat × Nat)) (m : Marks)
+    (h : marks f .scope ranges = .ok m)
+    (lb rb : Nat) (p : Nat × Nat) (stmts : List Stmt)
+    (hd : Decl.funcDecl (some (lb, rb, some p, stmts)) ∈ f.decls)
+    (l : Nat) (hw : WalkedL l stmts)
+    (env : Env) (henv : mkEnv f .scope ranges = .ok env)
+    (hch : env.isChanged l = .ok true)
+    (t : TScope) (ht : searchTrees env.trees l = some t) :
+    ∃ l0 t0 r0, searchTrees env.trees l0 = some t0 ∧ t0.search l0 = t.search l ∧
+      skipComments env (env.comments.size + 1) l0 = .ok r0 ∧ (r0 ∈ m.multi ∨ searchScopes env.funcs r0 = 0) := by
+  unfold marks at h
+  rw [henv] at h
+  simp only at h
+  split at h
+  · cases h
+  · next st hst =>
+    cases h
+    have hg : env.gran = .scope := mkEnv_gran f .scope ranges env henv
+    have hev : Ev.check l ∈ fileEvents (fun l => env.changed.getD l false) f := by
+      apply List.mem_flatMap.mpr
+      refine ⟨_, hd, ?_⟩
+      simp only [declEvents]
+      apply List.mem_append.mpr; left
+      apply List.mem_append.mpr; right
+      exact walkedL_ev hw
+    have h0 : ScopeWit env {} := by intro k hk; cases hk
+    obtain ⟨hwit, _, hvis⟩ := events_scope env hg _ {} st h0 hst
+    obtain ⟨l0, t0, r0, h1, h2, h3, h4⟩ := hwit _ (hvis l t (Or.inl ⟨hev, hch⟩) ht)
+    exact ⟨l0, t0, r0, h1, h2, h3, h4.imp (fun hm => (mem_sortNat _ _).mpr hm) id⟩
+
 /-- header rule, line granularity: a changed `if` header forces the line after the opening
     brace of the body (and of a non-empty plain else block) -/
 theorem if_header_forces (ch : Nat → Bool) (l e : Nat) (init : List Stmt) (ir cr : ORng) (cond : List Expr)
@@ -170,5 +411,30 @@ example : WalkedL 7 [.simple .mark 3 9 [] [.funcLit 3 9 3 9 (some (4, 2))
     [.ifS 4 8 [] none none [] 4 8 [] [.ifS 6 8 [] none none [] 6 8 [.simple .mark 7 7 [] [] []] []]]] []] :=
   .head (.markE (.head (.lit (by decide) (.head (.ifElseIf (by intro a b c h; cases h)
     (.ifB (.head .mark)))))))
+
+/-- non-vacuity of `events_marked_func`: function scope (2, 8); the changed statement on line 5
+    is guarded by a call on line 4, the first non-comment line after the brace (line 3 is a comment) -/
+def exampleFuncEnv : Env :=
+  { gran := .func, n := 8, changed := #[false, false, false, false, false, true, false, false, false],
+    comments := #[false, false, false, true, false, false, false, false, false],
+    funcs := [(1, 9), (2, 8)], trees := [] }
+
+example : (runEvents exampleFuncEnv [.check 5]).toOption.map (·.multi) = some [4]
+    ∧ searchScopes exampleFuncEnv.funcs 5 = 1 ∧ exampleFuncEnv.funcs[1]? = some (2, 8)
+    ∧ (skipComments exampleFuncEnv (exampleFuncEnv.comments.size + 1) 3).toOption = some 4 := by decide
+
+/-- non-vacuity of `events_scope`: function block (2, 9) with a child block (4, 7); changed
+    statements on lines 5, 6 (child block) and 8 (function block): one call per block, before the
+    first changed statement of each -/
+def exampleScopeEnv : Env :=
+  { gran := .scope, n := 9, changed := #[false, false, false, false, false, true, true, false, true, false],
+    comments := #[false, false, false, false, false, false, false, false, false, false],
+    funcs := [(1, 10), (2, 9)], trees := [.mk 2 9 [.mk 4 7 []]] }
+
+example : (runEvents exampleScopeEnv [.check 3, .check 5, .check 6, .check 8]).toOption.map
+    (fun st => (st.multi, st.visitedScopes)) = some ([5, 8], [(2, 9), (4, 7)]) := by
+  simp [runEvents, stepEv, forceMark, exampleScopeEnv, searchTrees, TScope.search, searchChildren, markInsert,
+    skipComments, Env.isChanged, Env.isComment, searchScopes, TScope.s, TScope.e, List.zipIdx, bind, Except.bind,
+    Except.toOption, pure, Except.pure]
 
 end GoatSpec.C03
